@@ -242,8 +242,8 @@ def ref_win(fd, fpo, addr, callee, mem, gcps, hasgc):
 
 class C07(PropBase):
     pid = "C07"
-    coq_dirs = ["Base", "C06", "C07", "C08", "C09", "C11"]
-    translators = []
+    coq_dirs = ["Base", "Gen", "C06", "C07", "C08", "C09", "C11"]
+    translators = ["c07_walker_args.py"]
     bins = ["c07"]
     rule = ("case = STACK WIN records (+ optionally one STACK CFI INIT record), lookup address, callee x86 registers, grand-callee "
             "parameter size, memory image; walked (A) by SymbolFile::walk_frame with a 32-bit mock FrameWalker or (B) by one x86 "
@@ -436,6 +436,54 @@ class C07(PropBase):
                     cases.append("|".join(["B", ctxs[0], valid, str(ESP - 16), bytes(img).hex(), W("0", 100, 16, 8, sv, lo, "0", abp)]))
                     dist["by_kind"]["B"] += 1
                     dist["real_walker"] += 1
+        # front-end (f): the same step resumed from a frame LIST, so that has_grand_callee / grand_callee_parameter_size
+        # are derived by the real walk_stack + CfiStackWalker::from_ctx_and_args.  `below` = parameter sizes of the frames
+        # under the callee ("-" = the frame's code has no FUNC/PUBLIC record), "." = the callee is the context frame.
+        belows = [".", "-", "0", "4", "8", "-,-", "4,-", "-,4", "8,4", "4,8", "-,-,-", "4,4,-", "-,8,0", "12,-,-,4"]
+        ceip = MODBASE + 105
+        ctxF = "eip=%d,esp=%d,ebp=%d,ebx=11,esi=12,edi=13,eax=14" % (ceip, ESP, ESP + 32)
+        fd_progs = ["$T0 .raSearchStart = $eip $T0 ^ = $esp $T0 4 + =",
+                    "$eip .raSearch ^ = $esp .raSearch 4 + = $ebx .cbCalleeParams =",
+                    "$eip $esp .cbCalleeParams + .cbSavedRegs + .cbLocals + ^ = $esp $esp .cbCalleeParams + 4 + ="]
+        nF = 0
+        for below in belows:
+            bl = [] if below == "." else below.split(",")
+            gcps = 0 if not bl or bl[-1] == "-" else int(bl[-1])
+            for sv, lo in itertools.product([0, 4, 8], [0, 4]):
+                fs = sv + lo + gcps
+                for eq in (True, False):
+                    img = bytearray(words(ESP - 16, 32))
+                    if eq:
+                        # direct recursion from one call site: the return address slot holds the callee's own eip, and so
+                        # does the slot one word up (the next activation's return address)
+                        for off in (16 + fs,):
+                            img[off:off + 4] = ceip.to_bytes(4, "little")
+                    for abp in ("0", "1"):
+                        for valid in (valids[0], valids[1]):
+                            if valid != valids[0] and not (sv == 4 and lo == 4):
+                                continue
+                            cases.append("|".join(["F", below, ctxF, valid, str(ESP - 16), bytes(img).hex(),
+                                                   W("0", 100, 16, 8, sv, lo, "0", abp)]))
+                            nF += 1
+                    # the slot computed with ANOTHER frame's parameter size holds a look-alike return address
+                    if not eq:
+                        for pr in fd_progs:
+                            cases.append("|".join(["F", below, ctxF, valids[0], str(ESP - 16), bytes(img).hex(),
+                                                   W("4", 100, 16, 8, sv, lo, "1", pr)]))
+                            nF += 1
+            # stack pointer of the callee outside the stack memory: only the context frame may still be unwound
+            img = words(ESP + 64, 16)
+            cases.append("|".join(["F", below, ctxF, valids[0], str(ESP + 64), img.hex(), W("0", 100, 16, 8, 0, 0, "0", "0")]))
+            cases.append("|".join(["F", below, ctxF, valids[0], str(ESP + 64), img.hex(),
+                                   W("4", 100, 16, 8, 0, 0, "1", "$eip %d ^ = $esp %d =" % (ESP + 64, ESP + 72))]))
+            nF += 2
+            # lookup address: every frame but the context frame is looked up at eip - 1 (record covers [100, 105))
+            img = bytearray(words(ESP - 16, 32))
+            cases.append("|".join(["F", below, ctxF, valids[0], str(ESP - 16), bytes(img).hex(), W("0", 100, 5, 8, 0, 4, "0", "0"),
+                                   W("0", 105, 8, 8, 4, 4, "0", "0")]))
+            nF += 1
+        dist["by_kind"]["F"] = nF
+        dist["frame_list_walker"] = nF
         return cases, dist, True
 
     # ------------------------------------------------------------------ oracle
@@ -448,6 +496,8 @@ class C07(PropBase):
         try:
             if f[0] == "A":
                 return self.oracle_mock(f, ans)
+            if f[0] == "F":
+                return self.oracle_real(f[1:], ans, [] if f[1] == "." else f[1].split(","))
             return self.oracle_real(f, ans)
         except Undoc:
             return None
@@ -481,7 +531,12 @@ class C07(PropBase):
             return "neither STACK WIN nor STACK CFI evaluates, but walk_frame returned %s" % ans[:200]
         return None
 
-    def oracle_real(self, f, ans):
+    def oracle_real(self, f, ans, below=()):
+        """below = StackFrame::parameter_size ("-" = unknown) of the frames under the callee, innermost first.
+        Documented (walker.rs FrameWalker docs / STACK WIN docs): a frame has a grand-callee iff it is not the context
+        frame; .cbCalleeParams is the grand-callee's parameter size when known, else 0."""
+        hasgc = len(below) > 0
+        gcps = int(below[-1]) if hasgc and below[-1] != "-" else 0
         ctx = C6.parse_regs(f[1])
         validset = None if f[2] == "all" else (set() if f[2] == "-" else set(f[2].split(",")))
         mem = C6.mem_reader(4, int(f[3]), bytes.fromhex(f[4]) if f[4] != "-" else b"")
@@ -494,8 +549,10 @@ class C07(PropBase):
             if validset is None:
                 callee.setdefault(r, 0)
         want = "N"
-        if (validset is None or "esp" in validset) and MODBASE <= ip < MODBASE + 0x10000:
-            kind, regs = ref_win(fd, fpo, ip - MODBASE, callee, mem, 0, False)
+        look = ip - 1 if hasgc else ip       # callers are looked up inside the call instruction
+        sp_ok = (not hasgc) or (int(f[3]) <= sp < int(f[3]) + (len(f[4]) // 2 if f[4] != "-" else 0))
+        if (validset is None or "esp" in validset) and sp_ok and MODBASE <= look < MODBASE + 0x10000:
+            kind, regs = ref_win(fd, fpo, look - MODBASE, callee, mem, gcps, hasgc)
             if kind == "win" and regs.get("eip", ctx.get("eip", 0)) >= 4096 and regs.get("esp", ctx.get("esp", 0)) > sp:
                 # eip/esp not set by the record keep the callee's value in the context but are not valid
                 want = regs
